@@ -8,6 +8,8 @@ include!("../../common/glue.rs");
 mod hooks;
 pub use hooks::{verif_hooks, verif_shim};
 
+mod bbchk;
+mod blackbox;
 mod eng;
 mod families;
 mod monitors;
